@@ -102,7 +102,9 @@ def convert(dump, cfgpath, name, origin):
         elif nm == "Heal":
             step = {"do": "heal", "i": i}
         elif nm == "Advance":
-            step = {"do": "advance", "to": cur["now"] * UNIT}
+            # the model is quiescent when time advances: its claims and states are compared with the real ones at this point
+            step = {"do": "advance", "to": cur["now"] * UNIT,
+                    "exp": {ids_up[x]: {"leader": e["leader"], "state": e["state"], "life": e["life"]} for x, e in prev["el"].items()}}
         elif nm == "HbHealth":
             health[ctx["i"]] += "h" if ctx["healthy"] else "u"
         elif nm in ("Disconnect", "Reconnect", "Closed"):
